@@ -102,6 +102,12 @@ func (d *EventTriggerDefinition) Validate() error {
 		if !lp.LogValueRef.IsTopic() || lp.ValuePredicate.Op != BytesEq {
 			continue
 		}
+		if len(lp.ValuePredicate.ByteArgs[0]) != Word {
+			// topics are always one word; any other length can never match and no filter
+			// query can be derived for it
+			return fmt.Errorf("BytesEq log predicate for topic %d at index %d must have a %d-byte argument, got %d bytes",
+				lp.LogValueRef.Offset, i, Word, len(lp.ValuePredicate.ByteArgs[0]))
+		}
 		if _, exists := topicMap[lp.LogValueRef.Offset]; exists {
 			return fmt.Errorf("duplicate BytesEq log predicate for topic %d at index %d", lp.LogValueRef.Offset, i)
 		}
